@@ -113,7 +113,9 @@ Fixpoint tr_seq {A} (l : list (result A)) : result (list A) :=
 (* _reader_columns *)
 Definition tr_without (k : nat) (cols : list nat) : list nat := filter (fun c => negb (Nat.eqb c k)) cols.
 
-(* df[k] = func(df)  (k is not a column of df: new last column); wrong length -> ValueError *)
+(* df[k] = func(df)  (k is not a column of df: new last column); wrong length -> ValueError,
+   except that pandas lets a frame WITHOUT rows take any number of values: it then gets that many
+   rows (index 0..), NaN in the other columns *)
 Definition tr_add_col (k : nat) (f : list nat -> list (list Z) -> result (list Z)) (fr : ch_frame)
   : result ch_frame :=
   match f (ch_names fr) (ch_rows fr) with
@@ -121,7 +123,11 @@ Definition tr_add_col (k : nat) (f : list nat -> list (list Z) -> result (list Z
   | Ok vs => if Nat.eqb (length vs) (length (ch_rows fr))
              then Ok {| ch_index := ch_index fr; ch_names := ch_names fr ++ [k];
                         ch_rows := map (fun p => fst p ++ [snd p]) (combine (ch_rows fr) vs) |}
-             else Err EValue
+             else match ch_rows fr with
+                  | [] => Ok {| ch_index := seq 0 (length vs); ch_names := ch_names fr ++ [k];
+                                ch_rows := map (fun v => repeat tr_nan (length (ch_names fr)) ++ [v]) vs |}
+                  | _ :: _ => Err EValue
+                  end
   end.
 
 (* per chunk: add the column, then df[columns]; the first failing chunk ends the generator *)
